@@ -291,6 +291,7 @@ type syncSt struct {
 	done    bool
 	gen     int
 	pool    []Value
+	m       *MapV
 }
 
 func (e *Exec) syncOf(p Value) *syncSt {
